@@ -1,5 +1,5 @@
 (* C17S — source tie by translation for SGD.Update.
-   Statements only (proofs: Proofs/ChainP.v).  Model/Chains.v is REGENERATED from /repo's Go sources
+   Statements only (proofs: Proofs/Chain*P.v).  Model/Chains.v is REGENERATED from /repo's Go sources
    on every run by the translator harness/chainx (go/ast): the straight-line chains of Tensor method
    calls of SGD.Update (component/optimizers/sgd.go).
    Each theorem interprets the generated chain with the model's own operations (Model/ChainIR.v) and
@@ -9,7 +9,7 @@
 From Coq Require Import String List ZArith Bool.
 From Qeep Require Import Model.Scalar Model.Nd Model.Data Model.Valid Model.Api Model.Grad Model.Components Model.ChainIR.
 From Qeep Require Model.Chains.
-From Qeep Require Import Proofs.ChainP.
+From Qeep Require Import Proofs.ChainBaseP Proofs.ChainSgdP.
 Import ListNotations.
 Local Open Scope string_scope.
 
@@ -25,5 +25,5 @@ Theorem sgd_update_is_its_source_chain :
       end
   | None => (h, Panic)
   end.
-Proof. exact @ChainP.sgd_chain. Qed.
+Proof. exact @ChainSgdP.sgd_chain. Qed.
 Print Assumptions sgd_update_is_its_source_chain.
